@@ -91,8 +91,21 @@ Definition decref_T (cn : conn) (k n : Z) : conn :=
   | XRaise _ => cn
   end.
 
+(* Tub._assignName / Tub.getReferenceForName, translated (the harness's Tubs have location hints) *)
+Definition assign_name_T (st : state) (o : Z) (pref sw : string) : state :=
+  match gen_assign_name true (s_n2r st) (s_r2n st) o pref sw with
+  | XOk (_, n2r, r2n) => set_names st n2r r2n
+  | XRaise _ => st
+  end.
+Definition found_name_T (w : world) (st : state) (n : string) : option (Z * state) :=
+  match gen_get_reference_for_name (s_n2r st) (s_r2n st) (s_h st) n with
+  | XOk (o, n2r, r2n) => Some (o, set_names st n2r r2n)
+  | XRaise _ => None
+  end.
+
 Definition step_T (w : world) (st : state) (e : event) : state * result :=
   match e with
+  | Register n o sw => (assign_name_T st o n sw, res0 Local)
   | Msg c req clid m args =>
     let cn := get_conn st c in
     if negb (c_alive cn) then (st, res0 Dead)
@@ -100,6 +113,13 @@ Definition step_T (w : world) (st : state) (e : event) : state * result :=
       let '(out, fx) := broker_call m args in
       match fx with
       | FxDecref k n => (set_conn st c (decref_T cn k n), res0 out)
+      | FxLookup nm =>
+        match found_name_T w st nm with
+        | None => (st, res0 out)
+        | Some (o, st0) =>
+          if req =? 0 then (st0, res0 out)
+          else let '(st', sent) := grant w st0 c o "" in (st', {| r_inst := []; r_out := out; r_sent := sent |})
+        end
       | _ => step w st e
       end
     else
